@@ -32,7 +32,7 @@ pub fn flavors_for(ctx: &Ctx, default_quick: &[Flavor], default_thorough: &[Flav
     }
 }
 
-pub const ALL_ASYNC: [Flavor; 4] = [Flavor::Async(Exec::TokioMt), Flavor::Async(Exec::TokioCt), Flavor::Async(Exec::AsyncStd), Flavor::Async(Exec::ThreadPerTask)];
+pub const ALL_ASYNC: [Flavor; 5] = [Flavor::Async(Exec::TokioMt), Flavor::Async(Exec::TokioCt), Flavor::Async(Exec::AsyncStd), Flavor::Async(Exec::ThreadPerTask), Flavor::Async(Exec::Seeded)];
 
 pub fn run_one(flavor: Flavor, script: &Script, watchdog: Duration) -> Sup<Trace> {
     let s2 = script.clone();
